@@ -757,6 +757,15 @@ def rule_whole_file_writes(ctx, rep: Report, rid="R6", min_sites=3):
                                 f"opened with mode {unparse(mode) if mode is not None else None}: only 'w'/'x' start from an empty file; "
                                 "'r+' / 'a' keep what an earlier run left in a file of the same name, so the output depends on the "
                                 "previous content of the build directory", f"{mi.rel}:{w.lineno}")
+        # pathlib form: Path(..).write_text(text) opens, writes and closes in one call
+        for c in walk_no_nested(fn):
+            if isinstance(c, ast.Call) and isinstance(c.func, ast.Attribute) and c.func.attr in ("write_text", "write_bytes") and c.args:
+                n += 1
+                built = not any(isinstance(x, ast.Call) for x in ast.walk(c.args[0]))
+                rep.add(rid, f"whole-file:{fid.qual}:{unparse(c.func.value)[:40]}", built,
+                        "the text handed to write_text must be completely built before the call: a generator that fails inside the argument "
+                        "expression fails before the file is touched only if nothing was opened yet - which holds for write_text - but keep the "
+                        "text in a local so that the rejection points stay in front of the write", f"{mi.rel}:{c.lineno}")
     if n < min_sites:
         raise AnalysisError(f"{rep.prop}/{rid}: {n} open-for-write sites found, {min_sites} expected")
 
@@ -2188,3 +2197,49 @@ def rule_universal_newlines(ctx, rep: Report, rid="L6", min_sites=2):
                     f"`{unparse(c)[:60]}`: {'; '.join(why)}: a file with \\\\r\\\\n or \\\\r line breaks is parsed differently from its \\\\n twin", f"{mi.rel}:{c.lineno}")
     if n < min_sites:
         raise AnalysisError(f"{rep.prop}/{rid}: only {n} file reads found")
+
+
+def rule_text_files_name_their_encoding(ctx, rep: Report, rid="R10", min_sites=6):
+    """Every file the generators read or write as text names its encoding.  Without one Python uses the locale's
+    preferred encoding: the same interface file then yields other bytes - or a UnicodeDecodeError - under another
+    LANG / LC_ALL, so the output is not a function of the inputs and options alone."""
+    prog = ctx.prog
+    n = 0
+    for mi in sorted(prog.modules.values(), key=lambda m: m.rel):
+        if not mi.rel.startswith(("gtwrap/", "scripts/")) or mi.rel.startswith("gtwrap/xml_parser"):
+            continue
+        for c in ast.walk(mi.tree):
+            if not isinstance(c, ast.Call):
+                continue
+            name = dotted(c.func) or (c.func.attr if isinstance(c.func, ast.Attribute) else "")
+            last = name.split(".")[-1]
+            if last not in ("open", "read_text", "write_text"):
+                continue
+            if last == "open":
+                if name not in ("open", "io.open", "codecs.open") and not (isinstance(c.func, ast.Attribute) and c.func.attr == "open"):
+                    continue
+                margs = c.args[1:2] if name in ("open", "io.open", "codecs.open") else c.args[0:1]
+                mode = margs[0] if margs else next((k.value for k in c.keywords if k.arg == "mode"), None)
+                if isinstance(mode, ast.Constant) and "b" in str(mode.value):
+                    continue                # binary: no decoding involved
+                if name.startswith("os."):
+                    continue
+            enc = next((k.value for k in c.keywords if k.arg == "encoding"), None)
+            if enc is None and name in ("open", "io.open") and len(c.args) >= 4:
+                enc = c.args[3]
+            if enc is None and name == "codecs.open" and len(c.args) >= 3:
+                enc = c.args[2]
+            if enc is None and last == "read_text" and c.args:
+                enc = c.args[0]
+            if enc is None and last == "write_text" and len(c.args) >= 2:
+                enc = c.args[1]
+            n += 1
+            fn = enclosing(c, ast.FunctionDef)
+            fname = fn.name if fn else "<module>"
+            key = f"encoding:{fname}:#{sum(1 for o in rep.obs if o.rule == rid and o.construct.startswith('encoding:' + fname + ':')) + 1}"
+            ok = enc is not None and not (isinstance(enc, ast.Constant) and enc.value is None)
+            rep.add(rid, key + ":the encoding is named", ok,
+                    f"`{unparse(c)[:70]}` decodes / encodes with the locale's preferred encoding: under LC_ALL=C (or a legacy code page) a non-ASCII "
+                    f"character in an interface file or template raises UnicodeDecodeError or is written as other bytes", f"{mi.rel}:{c.lineno}")
+    if n < min_sites:
+        raise AnalysisError(f"{rep.prop}/{rid}: only {n} text-mode file operations found ({min_sites} expected)")
